@@ -91,3 +91,13 @@ package local
 //@   ensures[recheck] result3 == nil && ranTransition(e, transitions) && e.watchMode == reifiedWatchModeRecursive && e.accelerate && changedDisk(result0, transitions) ==> forall t in 0..len(transitions) :: has(e.recheckPaths, transitions[t].Path)
 //@   loop 3 invariant[stale] rangeindex < len(results) && (transitionMadeChanges <==> exists r in 0..rangeindex+1 :: !core.eequal(results[r], transitions[r].Old, true))
 //@   loop 4 invariant[recheck] rangeindex < len(transitions) && forall t in 0..rangeindex+1 :: has(e.recheckPaths, transitions[t].Path)
+
+// Polling: an iteration of the polling loop that completed a scan whose
+// snapshot differs (deep comparison of the content, and the filesystem
+// behaviour flags) from the snapshot of the previous completed scan strobes
+// the poll signal, except on the very first iteration. prev() is the state at
+// the start of the iteration.
+//@ pred snapEq(a, b) = core.eequal(a.Content, b.Content, true) && a.PreservesExecutability == b.PreservesExecutability && a.DecomposesUnicode == b.DecomposesUnicode
+//@ func (*endpoint).watchPoll
+//@   requires e != nil
+//@   loop 1 invariant[notify] previous != prev(previous) && !prev(first) && !snapEq(previous, prev(previous)) ==> strobes[e.pollSignal] > prev(strobes[e.pollSignal])
